@@ -1,10 +1,16 @@
-"""C19 — concurrency: lock discipline of the regenerated table + ThreadSanitizer probe (DESIGN.md section 6, C19).
+"""C19 — concurrency: lock discipline and one-critical-section shape of the regenerated table, linearizability
+theorems over an interleaving semantics, ThreadSanitizer probe (DESIGN.md section 6, C19).
 
-The model for this property is not hand-written: tools/gen_locktable.py regenerates
+The event structure of the model is not hand-written: tools/gen_locktable.py regenerates
 lean/RomeaModel/Generated/LockTable.lean from clang's AST of /repo's sources on every run (stage G);
-`lake build` then re-checks `table_disciplined` / `table_covers` (by `decide`) on it together with the
-general theorems (lockset soundness, serial critical sections, serial semantics of the shared variables).
-Stage C is a ThreadSanitizer run of the real classes with real threads plus consistency checks of the values read.
+`lake build` then re-checks, by `decide` on that file, `table_disciplined` / `table_covers` (lock discipline) and
+`table_lin_shaped` / `checkup_getReport_shape` (every in-scope method is ONE critical section on the class guard
+containing all its field accesses) together with the general theorems: lockset soundness, and the reduction of the
+small-step interleaving semantics (lean/RomeaModel/Linearize.lean) to the serial machine — linearizability of the
+bodies built from the table for every field width and every data flow, with the per-class consequences
+(lean/RomeaModel/LinClasses.lean).
+Stage C is a ThreadSanitizer run of the real classes with real threads plus consistency checks of the values read,
+and a Python mirror of the two table checks that NAMES the offending method.
 """
 import os
 import subprocess
@@ -18,17 +24,38 @@ LEVEL = 'other'
 DRIVER = None
 HARNESS = None
 SOURCES = []
-PROOF_MODULES = ['RomeaProofs.Properties.C19']
+PROOF_MODULES = ['RomeaProofs.Properties.C19', 'RomeaProofs.Properties.C19Witness']
 TRUSTED = ['tools/gen_locktable.py: translator from clang-14 AST (JSON) to per-method lock/access event lists; it errs towards '
-           'reporting (anything unclassified is an unguarded write) and is cross-checked by the ThreadSanitizer run',
+           'reporting (anything unclassified is an unguarded write) and is cross-checked by the ThreadSanitizer run. Accesses through a '
+           'local reference/pointer alias of a member are represented by the event that creates the alias, not followed further',
+           'lean/RomeaModel/Linearize.lean `ofEvents`: the reading of an event list as micro-steps (a field access = one step per word, '
+           'reads before writes; `wr` = read-modify-write with arbitrary data flow; the result is computed from everything read)',
+           'the DATA FLOW of the methods is not extracted from the source: every class theorem quantifies over it under a SEQUENTIAL '
+           'contract (the method run alone refines its specification: a cell, a one-place buffer, "the report of this evaluation"); '
+           'hand-written flows (LinClasses.lean, LinReport.lean) show the contracts satisfiable on today\'s event lists',
            'clang++-14, libstdc++, std::mutex, the C++ memory model, ThreadSanitizer\'s happens-before analysis']
-ASSUMPTIONS = ['the theorems assume sequentially consistent interleaving of the summaries\' events and that lock_guard acquires/releases '
-               'as the event language says; the real memory model and scheduler are exercised by the TSan probe only (partial)',
+ASSUMPTIONS = ['single-threaded correctness of each method (store/load is a cell, store/consume a one-place buffer, evaluate/timeout leave the '
+               'report of their own evaluation) is a HYPOTHESIS of the class theorems, not proved here (C16-C18 and the unit tests cover it)',
+               'the theorems are about a sequentially consistent interleaving of word-sized micro-steps in which lock_guard acquires/releases '
+               'as the event language says and a blocked lock() does not move; the real memory model, std::mutex, compiler reordering and '
+               'the scheduler are exercised by the TSan probe only (partial)',
+               'check-up reports: consistency of every copy is proved for EVERY data flow of evaluate/timeout that meets the sequential '
+               'contract "run alone, the call leaves status, message and value of its own evaluation" (the sequential behaviour is C18\'s '
+               'subject); online statistics: proved for every data flow (values of a serial order), nothing about the arithmetic',
+               'RateMonitoring (getRate is a lone atomic load outside the mutex; update reads windowSize_ before locking) is NOT covered '
+               'by the reduction theorem — lock discipline (part 1) and the probe only; CheckupRate, which wraps it under its own mutex, is',
                'operations in scope: update/store/evaluate/reset (writer) and load/consume/get*/isAvailable/getReport/heartbeat/timeout '
                '(readers), as the property lists them; configuration methods (setWindowSize, initialize) are out of scope']
-EXPLANATION = ('partial: Lean theorems (lock discipline => every conflicting pair is ordered by release/acquire = no data race; critical '
-               'sections are serial; SharedVariable/SharedOptionalVariable serial semantics) + kernel-checked discipline of the lock table '
-               'regenerated from the clang AST of the current source + ThreadSanitizer run of the real classes with value-consistency checks')
+EXPLANATION = ('partial: Lean theorems, for any number of threads, any schedule, unbounded histories — (1) lock discipline => every '
+               'conflicting pair is ordered by release/acquire = no data race; (2) reduction: bodies that are one critical section on the '
+               'guard => every reachable state (calls in flight included) is explained by the serial execution of the calls in guard '
+               'acquisition order (linearizability); kernel-checked on every run that the event lists regenerated from the clang AST of '
+               'the current source obey the discipline and have that shape (all anchored classes except RateMonitoring for the shape); '
+               'consequences: SharedVariable is a linearizable cell never observed half-written (any width), SharedOptionalVariable a '
+               'linearizable one-place buffer (consumed values = subsequence of stored values: exactly once, store order, overwritten '
+               'values dropped), every report copy is the status/message/value of ONE evaluation, statistics getters return values of a '
+               'serial order. Only exercised by the probe (ThreadSanitizer run of the real classes with value-consistency checks): the '
+               'real memory model, std::mutex, compiler reordering, RateMonitoring\'s atomics')
 
 SCENARIOS = ['shared_variable', 'shared_optional', 'online_average', 'online_variance', 'checkup_equal_to', 'checkup_greater_than',
              'checkup_lower_than', 'checkup_reliability', 'rate_monitoring', 'checkup_rate_eq', 'checkup_rate_gt']
@@ -102,12 +129,65 @@ def _discipline_failures(table):
     return fails
 
 
+NOT_REDUCED = ('RateMonitoring',)     # mirrors Romea.C19.notReduced
+
+
+# ---- python mirror of Romea.Lin.evShape, only used to NAME the offending method in the report
+def _shape(g, evs):
+    if not evs or evs[0] != ('acq', g):
+        return 'does not start by taking %s (first event: %s)' % (g, ' '.join(evs[0]) if evs else 'none')
+    body = evs[1:]
+    for i, (k, f) in enumerate(body):
+        if k == 'rel':
+            if f != g:
+                return 'releases %s inside the critical section' % f
+            if i != len(body) - 1:
+                k2, f2 = body[i + 1]
+                what = {'acq': 'a second critical section (takes %s again): an intermediate state is exposed between the two',
+                        'rd': 'reads %s after the release', 'wr': 'writes / uses %s after the release',
+                        'escape': 'a reference to %s escapes (the caller copies after the release)',
+                        'atomic': 'atomic access of %s after the release'}.get(k2, '%s after the release')
+                return what % f2
+            return None
+        if k == 'acq':
+            return 'takes %s inside the critical section' % f
+        if k in ('atomic', 'escape'):
+            return '%s event on %s inside the critical section' % (k, f)
+    return 'never releases %s' % g
+
+
+def _shape_failures(table):
+    fails = []
+    for c in table:
+        if c['name'] in NOT_REDUCED:
+            continue
+        mutexes = [f for f, t in c['fields'].items() if 'mutex' in t]
+        best = None
+        for g in mutexes or ['<no mutex>']:
+            bad = [(m, _shape(g, evs)) for m, evs in c['methods']]
+            bad = [(m, w) for m, w in bad if w]
+            if best is None or len(bad) < len(best):
+                best = bad
+        for m, w in best or []:
+            fails.append({'kind': 'not-one-critical-section', 'detail': '%s::%s: %s' % (c['name'], m, w),
+                          'fields': {'class': c['name'], 'method': m, 'what': w},
+                          'replay': {'class': c['name'], 'method': m, 'what': w,
+                                     'events': [list(e) for e in dict(c['methods'])[m]],
+                                     'theorem': 'Romea.C19.table_lin_shaped (hypothesis of table_linearizable)',
+                                     'note': 'summary regenerated from the clang AST of the working tree; replay: python3 tools/gen_locktable.py <repo>'}})
+    return fails
+
+
 def extra_probe(ctx, stats):
     fails = []
     table = _TABLE.get('table')
     if table:
         stats['table_methods'] = sum(len(c['methods']) for c in table)
-        fails += _discipline_failures(table)
+        stats['shape_checked_methods'] = sum(len(c['methods']) for c in table if c['name'] not in NOT_REDUCED)
+        disc = _discipline_failures(table)
+        fails += disc
+        seen = {(f['fields']['class'], f['fields']['method']) for f in disc}
+        fails += [f for f in _shape_failures(table) if (f['fields']['class'], f['fields']['method']) not in seen]
     # ---- ThreadSanitizer run
     exe = os.path.join(ctx['scratch'], 'c19_tsan')
     repo = ctx['repo']
